@@ -75,6 +75,20 @@ PROPERTIES = {
         "level_note": "Assumed: console::StyledObject printing, core::fmt sink. The quick tier runs the Verus unit only; the three Kani harnesses take 5 to 60 minutes and run in the thorough tier (a timeout there is reported as undecided). That WideElement::expand hands format_bar the remaining width is decided in C11's unit (format_state).",
         "assumptions": ["cell widths 1..2 and 2..5 progress characters in the Kani fixture", "IEEE-754 semantics as implemented by CBMC"],
     },
+    "C19": {
+        "units": ["draw_to_term"],
+        "kani_thorough": [
+            {"harness": "c19_wrapped_height_bounded", "timeout": 900, "complete": False, "bound": "cols <= 4096, 1 <= width <= 256",
+             "obligation": "kani/draw_target::LineType::wrapped_height",
+             "what": "wrapped_height == max(1, ceil(cols/width)) (f64 division + ceil)",
+             "trusted": ["console::measure_text_width stubbed by a mock returning the symbolic column count"]},
+        ],
+        "level": "proof",
+        "explanation": "DrawState::draw_to_term, visual_line_count, LineType::{console_width, as_ref}, VisualLines operators extracted from src/draw_target.rs and verified against the ghost terminal: rows are accounted as max(1, ceil(cols/width)) per line, the clear loop blanks exactly the rows of the previous frame, bars are painted only while their accumulated height fits the terminal height, the stored row count equals the rows of the painted bars and never exceeds the height, for every width >= 1, every number of lines and every previous frame height (three loops with inductive invariants).",
+        "level_text": "Deductive proof (Verus) over all line lists, widths, heights and previous frame sizes. wrapped_height itself is float code: its contract r == max(1, ceil(cols/width)) is assumed here and checked by a bounded Kani stand-in (thorough tier; bounded, not counted as proved).",
+        "level_note": "Assumed: the ghost terminal model (DESIGN section 3) as the contract of TermLike; console::measure_text_width uninterpreted; wrapped_height's float arithmetic outside the Kani box; line widths < 2^32, terminal width <= 65535, frame heights < 2^31.",
+        "assumptions": ["R10: one model terminal type; R2 &self -> &mut self; R3 loop desugarings; R11 derived comparisons field-wise"],
+    },
     "C14": {
         "units": ["c14_style"],
         "level": "proof",
@@ -112,6 +126,8 @@ WITNESS = {
     "c15_formatters/HumanFloatCount::fmt": ["human_float"],
     "c15_formatters/HumanCount::fmt": ["human_count"],
     "c15_formatters/FormattedDuration::fmt": ["formatted_duration"],
+    "draw_to_term/DrawState::draw_to_term#C03": ["cr_hazard", "first_line_hazard"],
+    "draw_to_term/DrawState::draw_to_term": ["first_line_hazard", "cr_hazard"],
     "c14_style/ProgressStyle::tick_strings": ["style_build tick_strings"],
     "c14_style/ProgressStyle::progress_chars": ["style_build progress_chars"],
     "c14_style/ProgressStyle::tick_chars": ["style_build tick_chars"],
